@@ -147,3 +147,117 @@ func DrawAVCSPS(t *sim.Tape) (nalu []byte, width, height int, chromaFormat, bitD
 	desc = fmt.Sprintf("profile=%d chroma=%d/%d frame_mbs_only=%d %dx%d mbs/units crop=%v(%d,%d,%d,%d) -> %dx%d", profile, chroma, sepPlane, fmo, wMbs, hUnits, crop, l, rr, tp, bt, width, height)
 	return
 }
+
+// DrawHEVCSPS writes a seeded, well-formed HEVC sequence parameter set NAL unit (ISO/IEC 23008-2 7.3.2.2, with
+// profile_tier_level for 1-3 temporal sub-layers incl. sub-layer profile/level info, no VUI, no extensions) and
+// returns the cropped luma picture size from 7.4.3.2.1 (conformance window in units of SubWidthC / SubHeightC).
+func DrawHEVCSPS(t *sim.Tape) (nalu []byte, width, height int, desc string) {
+	w := &bitWriter{}
+	w.u(0, 4) // sps_video_parameter_set_id
+	msl := uint(t.Draw(3))
+	w.u(msl, 3) // sps_max_sub_layers_minus1
+	w.bit(1)    // sps_temporal_id_nesting_flag
+	// profile_tier_level(1, msl)
+	w.u(0, 2)
+	w.bit(uint(t.Draw(2)))
+	prof := uint(1 + t.Draw(2))
+	w.u(prof, 5)
+	w.u(uint(0x60000000>>(prof-1)), 32) // compatibility flags
+	w.u(0x9000, 16)                     // progressive + frame-only, rest of the 48 constraint bits zero
+	w.u(0, 32)
+	w.u([]uint{93, 120, 123, 150}[t.Draw(4)], 8) // general_level_idc
+	type sl struct{ prof, lvl uint }
+	sls := make([]sl, msl)
+	for i := range sls {
+		sls[i] = sl{uint(t.Draw(2)), uint(t.Draw(2))}
+		w.bit(sls[i].prof)
+		w.bit(sls[i].lvl)
+	}
+	if msl > 0 {
+		for i := msl; i < 8; i++ {
+			w.u(0, 2) // reserved_zero_2bits
+		}
+	}
+	for _, s := range sls {
+		if s.prof == 1 {
+			w.u(0, 2)
+			w.bit(0)
+			w.u(prof, 5)
+			w.u(uint(0x60000000>>(prof-1)), 32)
+			w.u(0x9000, 16)
+			w.u(0, 32)
+		}
+		if s.lvl == 1 {
+			w.u([]uint{63, 90, 93, 120}[t.Draw(4)], 8)
+		}
+	}
+	w.ue(0) // sps_seq_parameter_set_id
+	chroma := uint(t.Draw(4))
+	sep := uint(0)
+	w.ue(chroma)
+	if chroma == 3 {
+		sep = uint(t.Draw(2))
+		w.bit(sep)
+	}
+	width, height = 8*(1+t.Draw(480)), 8*(1+t.Draw(272))
+	w.ue(uint(width))
+	w.ue(uint(height))
+	crop := t.Chance(600)
+	var l, rr, tp, bt int
+	if crop {
+		subW, subH := 1, 1
+		if sep == 0 {
+			subW, subH = map[uint]int{0: 1, 1: 2, 2: 2, 3: 1}[chroma], map[uint]int{0: 1, 1: 2, 2: 1, 3: 1}[chroma]
+		}
+		l, rr, tp, bt = t.Draw(4), t.Draw(4), t.Draw(4), t.Draw(6)
+		for subW*(l+rr) >= width {
+			l, rr = l/2, rr/2
+		}
+		for subH*(tp+bt) >= height {
+			tp, bt = tp/2, bt/2
+		}
+		w.bit(1)
+		w.ue(uint(l))
+		w.ue(uint(rr))
+		w.ue(uint(tp))
+		w.ue(uint(bt))
+		width -= subW * (l + rr)
+		height -= subH * (tp + bt)
+	} else {
+		w.bit(0)
+	}
+	w.ue(uint(t.Draw(3))) // bit_depth_luma_minus8
+	w.ue(uint(t.Draw(3))) // bit_depth_chroma_minus8
+	w.ue(uint(t.Draw(5))) // log2_max_pic_order_cnt_lsb_minus4
+	ord := uint(t.Draw(2))
+	w.bit(ord) // sps_sub_layer_ordering_info_present_flag
+	first := msl
+	if ord == 1 {
+		first = 0
+	}
+	for i := first; i <= msl; i++ {
+		w.ue(uint(1 + t.Draw(4)))
+		w.ue(uint(t.Draw(2)))
+		w.ue(uint(t.Draw(3)))
+	}
+	w.ue(0)                   // log2_min_luma_coding_block_size_minus3
+	w.ue(uint(1 + t.Draw(3))) // log2_diff_max_min_luma_coding_block_size
+	w.ue(0)                   // log2_min_luma_transform_block_size_minus2
+	w.ue(uint(1 + t.Draw(3))) // log2_diff_max_min_luma_transform_block_size
+	w.ue(uint(t.Draw(3)))     // max_transform_hierarchy_depth_inter
+	w.ue(uint(t.Draw(3)))     // max_transform_hierarchy_depth_intra
+	w.bit(0)                  // scaling_list_enabled_flag
+	w.bit(uint(t.Draw(2)))    // amp_enabled_flag
+	w.bit(uint(t.Draw(2)))    // sample_adaptive_offset_enabled_flag
+	w.bit(0)                  // pcm_enabled_flag
+	w.ue(0)                   // num_short_term_ref_pic_sets
+	w.bit(0)                  // long_term_ref_pics_present_flag
+	w.bit(uint(t.Draw(2)))    // sps_temporal_mvp_enabled_flag
+	w.bit(uint(t.Draw(2)))    // strong_intra_smoothing_enabled_flag
+	w.bit(0)                  // vui_parameters_present_flag
+	w.bit(0)                  // sps_extension_present_flag
+	w.trailing()
+	nalu = append([]byte{0x42, 0x01}, ebsp(w.bytes)...)
+	desc = fmt.Sprintf("sub-layers=%d chroma=%d/%d crop=%v(%d,%d,%d,%d) -> %dx%d", msl+1, chroma, sep, crop, l, rr, tp, bt, width, height)
+	return
+}
